@@ -402,7 +402,7 @@ func (md *DICompositeType) LLString() string {
 		fields = append(fields, field)
 	}
 	if md.RuntimeLang != 0 {
-		field := fmt.Sprintf("runtimeLang: %s", md.RuntimeLang)
+		field := fmt.Sprintf("runtimeLang: %s", enumOrIntString(md.RuntimeLang))
 		fields = append(fields, field)
 	}
 	if md.VtableHolder != nil {
